@@ -79,6 +79,23 @@ def _run(ctx, rep):
             ok, w = equal(dh, dL, [c for c, _ in s.facts])
             rep.ob('pairing', subj, ok, '%s advances the offset counter by %s but the table length by %s' % (s.fn['name'], show(dh), show(dL)), sp=s.fn['sp'],
                    detail={'delta_counter': show(dh), 'delta_length': show(dL), 'witness': w})
+            # placement: the image after the add is the image before it with the new node's bytes at the very end,
+            # i.e. the node sits exactly where the counter (== old length) said it would
+            if s.E_pre is not None and s.E_post is not None:
+                node = None
+                for a in s.args:
+                    v = a.place.get() if isinstance(a, RefV) else a
+                    if isinstance(v, StructV) and s.I.f.method('Aml', v.ty, 'to_aml_bytes'): node = v
+                if node is None and s.fn['name'] in ('add_isa_string', 'add_mmu_node'):
+                    vec = s.post.fields.get('structures'); node = vec.segs[-1][1] if isinstance(vec, SeqV) and vec.segs and vec.segs[-1][0] == 'elem' else None
+                if node is not None:
+                    nsegs = emit_value(s.I, node, node.ty)
+                    tail = s.E_post[-len(nsegs):] if nsegs else []
+                    okp = bool(nsegs) and segs_equal(tail, nsegs)[0] and equal(strip_trunc(seqlen(s.E_post[:-len(nsegs)])), strip_trunc(seqlen(s.E_pre)))[0]
+                    rep.ob('placement', subj, okp, '%s does not emit the new node at the end of the image (where its handle points): tail is %s' % (s.fn['name'], show_segs(tail)[:160]), sp=s.fn['sp'],
+                           detail={'node_bytes': show(seqlen(nsegs)) if nsegs else None, 'tail': show_segs(tail)[:200]})
+                else:
+                    rep.ob('placement', subj, False, 'cannot identify the node that %s adds' % s.fn['name'], sp=s.fn['sp'])
             r = s.ret
             if isinstance(r, StructV) and list(r.fields) == ['0']:
                 hv = strip_trunc(r.fields['0'])
